@@ -902,6 +902,58 @@ example : ∃ var, varOfVec ([1/2, 3, 4, 5] : List Rat) true = some var ∧ (var
 example : povmVarOfStacked 1 (1 : Rat) [5, 7, -11] true = varOfVecs [[5], [7], [-11]] true :=
   povm_stacked_to_var_any 1 3 1 [[5], [7], [-11]] true (by decide) (by decide) (by decide) (by decide)
 
+/-- C03.3 converse for gates: `convert_var_to_hs` accepts ONLY variable vectors of the generated `num_variables_qpt` length
+(any other length raises in `reshape`). -/
+theorem gate_var_length_of_ok [Zero K] [One K] (d : Nat) (var : List K) (f : Bool) (hs : List (List K)) (hd : 0 < d)
+    (h : hsOfVar d var f = some hs) : (var.length : Int) = num_variables_qpt d f := by
+  have hd0 : d ≠ 0 := by omega
+  rw [nv_qpt d var.length f hd]
+  unfold hsOfVar at h
+  rw [if_neg hd0] at h
+  cases f
+  · simp only [Bool.false_eq_true, ↓reduceIte] at h ⊢
+    exact (reshape2_some _ _ _ _ h).1
+  · simp only [↓reduceIte, Option.bind_eq_bind] at h ⊢
+    cases hr : reshape2 (d ^ 2 - 1) (d ^ 2) var with
+    | none => rw [hr] at h; cases h
+    | some r => exact (reshape2_some _ _ _ _ hr).1
+
+/-- C03.3 converse for POVMs: `convert_var_to_vecs` accepts exactly the variable vectors whose length is a multiple of `d²`
+(the outcome count is read off the length: `len/d²` elements, plus the implied one with the constraint). -/
+theorem povm_var_length_of_ok [Add K] [Sub K] [Zero K] (d : Nat) (sq : K) (var : List K) (f : Bool)
+    (vecs : List (List K)) (h : vecsOfVar d sq var f = some vecs) :
+    d ≠ 0 ∧ var.length = (var.length / d ^ 2) * d ^ 2 ∧ vecs.length = var.length / d ^ 2 + (if f then 1 else 0) := by
+  unfold vecsOfVar at h
+  split at h
+  · cases h
+  · rename_i hd0
+    refine ⟨hd0, ?_⟩
+    cases f
+    · simp only [Bool.false_eq_true, ↓reduceIte] at h ⊢
+      obtain ⟨h1, h2⟩ := reshape2_some _ _ _ _ h
+      exact ⟨h1, by rw [h2, rows_length]; simp⟩
+    · simp only [↓reduceIte, Option.bind_eq_bind, Nat.add_sub_cancel] at h ⊢
+      cases hr : reshape2 (var.length / d ^ 2) (d ^ 2) var with
+      | none => rw [hr] at h; cases h
+      | some pre =>
+        rw [hr] at h
+        simp only [Option.bind_some] at h
+        obtain ⟨h1, _⟩ := reshape2_some _ _ _ _ hr
+        obtain ⟨_, h4⟩ := reshape2_some _ _ _ _ h
+        exact ⟨h1, by rw [h4, rows_length]⟩
+
+/-- C03.4 state, with the range hypothesis: the entry the generated index points at IS the variable. -/
+theorem state_index_points_at_some (s : K) (var : List K) (f : Bool) (i : Nat) (hi : i < var.length) :
+    (vecOfVar s var f)[(convert_var_index_to_state_index i f).toNat]? = some var[i] := by
+  rw [state_index_points_at, List.getElem?_eq_getElem hi]
+
+example : (vecOfVar (1/2 : Rat) [3, 4, 5] true)[(convert_var_index_to_state_index 1 true).toNat]? = some 4 :=
+  state_index_points_at_some _ _ true 1 (by decide)
+example : ¬ ∃ hs, hsOfVar 2 (List.replicate 11 (1 : Rat)) true = some hs := by
+  rintro ⟨hs, h⟩
+  have := gate_var_length_of_ok 2 _ true hs (by decide) h
+  revert this; decide
+
 /-! ## clause "across a whole set of operations" -/
 
 /-- C03.5 SetQOperations: local (mode, operation k, local index j) ↦ total index lands in range and
